@@ -199,9 +199,17 @@ def c11(tier, seed):
     c = _split("C11", tier, seed, "rel", "tables_monitor", ["--randoms", str(150000 if q else 40000000)], timeout=5400)
     if not q:
         _merge(c, _split("C11", tier, seed + 500, "asan", "tables_monitor", ["--randoms", "200000"]))
+    # the tables as a user meets them: the first command of a fresh process already relies on them
+    res = _uci("coldstart", seed + 6, 20 if q else 200, flavour="rel")
+    _uci_crashes(c, res)
+    _uci_perfts(c, res)
+    _uci_boards(c, res)
+    c.counters["uci-cold-start-sessions"] = len(res)
     c.rule = ("EXHAUSTIVE: all 64 x 2^k subsets of the relevant blocker squares for bishop (5,248) and rook (102,400), each also with "
               "random garbage outside the mask; every entry of KNIGHT_MASK, KING_MASK, RAYS, LINES, FULL_LINES; shift<> in all ten "
-              "directions; plus random full occupancies and pawn/king set functions; non-trivial = squares")
+              "directions; plus random full occupancies and pawn/king set functions; plus fresh engine processes whose FIRST command is "
+              "perft / moves / printboard / staticeval (no uci, isready or position before it), perft counts and boards compared with "
+              "the oracle; non-trivial = squares")
     c.exhaustive = True
     c.extra["explanation"] = "table part enumerated completely; random occupancies are additional sampling"
     c.assumptions = ["geometry reference = coordinate walks written in harness/tables_monitor.cpp"]
@@ -209,6 +217,8 @@ def c11(tier, seed):
     c.require("rook-subsets", need_r)
     c.require("bishop-subsets", 5248 * (1 if q else 2))
     c.require("leaper-line-table-entries", 8832)
+    c.require("uci-cold-start-sessions", 20 if q else 200)
+    c.require("uci-perft-counts-compared", 40 if q else 400)
     return c.finish()
 
 
@@ -238,11 +248,21 @@ def c20(tier, seed):
     for k in list(c.counters):
         if k.startswith("sanitizer:ubsan:") and k.split(":")[2] in ("signed-overflow", "float-cast", "shift", "div-zero"):
             c.add_violation("ubsan:" + k.split(":")[2], {"note": "UBSan report inside calculateTime workload", "count": c.counters[k]})
+    # the allotment as a running search uses it: clock-governed searches of the real Search class, the budget read through the
+    # iteration hooks (start and end of every iteration, before bestmove); verdict on the values, never on wall time
+    _merge(c, _search("C20", tier, seed + 900, "rel", 20 if q else 400, 0, timeout=5400))
     c.rule = ("grid over remaining time x increment x movestogo x ply x colour, random tuples, and monotone sweeps (200 increasing clock "
-              "values per (inc, movestogo, ply)); run in the -Ofast build users run and in the UBSan build; non-trivial = distinct random tuples")
-    c.assumptions = ["domain: time 0..24h ms, increment 0..10min, movestogo 0..200, ply 0..1000 (the property's quantifier)"]
+              "values per (inc, movestogo, ply)); run in the -Ofast build users run and in the UBSan build; plus live clock-governed searches "
+              "(roots with one and with many legal moves, allotment at the 70% cap, unstable scores) whose working budget is read at every "
+              "iteration boundary and must stay within 0..70% of the mover's clock; non-trivial = distinct random tuples and (root, go) pairs")
+    c.assumptions = ["domain: time 0..24h ms, increment 0..10min, movestogo 0..200, ply 0..1000 (the property's quantifier)",
+                     "live part: clocks 1..4000 ms so that a search takes at most a few seconds"]
     c.require("grid-points", 4000000)
     c.require("monotone-steps", 50000)
+    c.require("live-searches", 200 if q else 4000)
+    c.require("live-searches:single-legal-move", 30 if q else 600)
+    c.require("live-searches:budget-positive", 100 if q else 2000)
+    c.require("live-searches:score-swing-with-allotment-at-the-cap", 1 if q else 20)
     return c.finish()
 
 
@@ -328,7 +348,8 @@ def c19(tier, seed):
             c.counters["uci-book-answers"] = c.counters.get("uci-book-answers", 0) + 1
             bm = [l.split()[1] for l in g["out"] if l.startswith("bestmove") and len(l.split()) > 1]
             if not bm or bm[0] not in g["legal"]:
-                c.add_violation("uci-book:answer-not-allowed-by-book:" + r_["tag"].split(":")[1],
+                c.add_violation("uci-book:answer-not-allowed-by-book:" + r_["tag"].split(":")[1] +
+                                (":root-via-moves-command" if "root-via-moves-command" in r_["tag"] else ""),
                                 {"tag": r_["tag"], "fen": g["fen"], "answer": bm, "book_allows": g["legal"], "cmds": r_["cmds"][-5:]})
             if "__search__" in g["sm"]:
                 c.counters["uci-book-switched-to-recordless-book"] = c.counters.get("uci-book-switched-to-recordless-book", 0) + 1
@@ -336,7 +357,9 @@ def c19(tier, seed):
                     c.add_violation("uci-book:stale-records-after-switch:" + r_["tag"].split(":")[-1],
                                     {"tag": r_["tag"], "fen": g["fen"], "answer": bm, "cmds": r_["cmds"][-6:],
                                      "note": "no search ran after the book was replaced by one without complete records"})
+    c.counters["uci-book-sessions:root-via-moves-command"] = sum(1 for r_ in res if "root-via-moves-command" in r_["tag"])
     c.require("uci-book-answers", 100)
+    c.require("uci-book-sessions:root-via-moves-command", 5)
     c.require("uci-book-switched-to-recordless-book", 10)
     c.require("book-move:non-king-from-e1/e8-along-back-rank", 30)
     c.require("files:empty", 8)
